@@ -6,3 +6,22 @@
 #![allow(dead_code)]
 
 pub mod des;
+pub mod sm4;
+pub mod aes;
+pub mod aria;
+pub mod camellia;
+pub mod kuznyechik;
+pub mod gost;
+pub mod belt;
+pub mod serpent;
+pub mod twofish;
+pub mod cast6;
+pub mod blowfish;
+pub mod cast5;
+pub mod idea;
+pub mod rc2;
+pub mod xtea;
+pub mod rc5;
+pub mod speck;
+pub mod threefish;
+pub mod gift;
